@@ -259,6 +259,7 @@ def _cases(draw, large=False):
         cand = C12_ROLES
     else:
         cand = list(spec.get('pool') or []) + [':ARG0', ':foo'] + [':A1', ':A2', ':src', ':tgt']
+    cand = list(cand) + models.case_variants(table)
     fwd = [r for r in dict.fromkeys(cand) if R.is_canonical_inversion(r) and not R.inverted(r)]
     inv = {r: R.invert(r) for r in fwd if R.inverted(R.invert(r)) and R.is_canonical_inversion(R.invert(r))}
     concepts = C12_CONCEPTS if spec['name'] != 'custom' else trees.CONCEPTS + [r[1] for r in table['reifications']]
